@@ -47,7 +47,7 @@ def main():
         ok &= good
         rows.append((name, "expected one of %s" % want, "got %s" % got, "OK" if good else "MISSED"))
 
-    v, n = mc_flag_off("Transitive", "<-NamesABC", seqcheck.INVARIANTS["C02"], shard=(16, 3))
+    v, n = mc_flag_off("Transitive", "<-NamesABC", seqcheck.INVARIANTS["C02"], shard=(64, 3))
     expect("Transitive=FALSE (Add depth / re-added blocked states)", v,
            ["Inv_C02_AddSatisfied", "Inv_C02_NoRemoveConflict"])
     v, n = mc_flag_off("TopoSort", "<-NamesABC", ["Inv_C05"],
@@ -55,15 +55,15 @@ def main():
     expect("TopoSort=FALSE (After order)", v, ["Inv_C05"])
     v, n = mc_flag_off("ExitFix", "<-NamesAB", ["Inv_NoCrash"], extra=dict(UseFlags=True, MaxCalls=2))
     expect("ExitFix=FALSE (Exit veto panics)", v, ["Inv_NoCrash"])
-    v, n = mc_flag_off("OrderedAuto", "<-NamesAB", ["Inv_C11"], extra=dict(UseFlags=True, MaxCalls=1))
+    v, n = mc_flag_off("OrderedAuto", "<-NamesABC", ["Inv_C11"], extra=dict(UseFlags=True, MaxCalls=1, MaxRel=0))
     expect("OrderedAuto=FALSE (auto order from a map)", v, ["Inv_C11"])
     v, n = mc_flag_off("OrderedTopo", "<-NamesABC", ["Inv_C11"], extra=dict(MaxRel=1), shard=(4, 0))
     expect("OrderedTopo=FALSE (topology from a map)", v, ["Inv_C11"])
     v, n = mc_flag_off("LoopFix", "<-NamesAB", ["Inv_NoHang"],
-                       extra=dict(UseFlags=True, MaxCalls=2, MaxVeto=0, FaultMode=True), shard=(32, 1))
+                       extra=dict(UseFlags=True, MaxCalls=2, MaxVeto=0, FaultMode=True))
     expect("LoopFix=FALSE (panic in Exception handler wedges)", v, ["Inv_NoHang"])
     v, n = mc_flag_off("EndFix", "<-NamesAB", ["Inv_C08"],
-                       extra=dict(UseFlags=True, MaxCalls=2, MaxVeto=0, FaultMode=True), shard=(32, 1))
+                       extra=dict(UseFlags=True, MaxCalls=2, MaxVeto=0, FaultMode=True))
     expect("EndFix=FALSE (End-handler fault not rolled back)", v, ["Inv_C08"])
 
     r = tlcrun.run_tlc("MCQueue", dict(spec="Spec", consts=dict(Callers="{1, 2}", MutsPer=1, NestCodes="{}", PrepCodes="{}",
